@@ -78,6 +78,10 @@ def fd_weights_all(x, x0=0, n=1):
 # from numba import jit, float64, int64, int32, int8, void
 # @jit(void(float64[:,:], float64[:], float64, int64))
 def _fd_weights_all(weights, x, x0, n):
+    x = np.asarray(x)
+    if x.dtype.kind in 'iub':
+        # the running products of node differences overflow silently in integer arithmetic
+        x = x.astype(float)
     m = len(x)
     c_1, c_4 = 1, x[0] - x0
     weights[0, 0] = 1
